@@ -118,6 +118,7 @@ type replayCase struct {
 	// expectations
 	viol    *Violation
 	witness *Witness
+	group   string
 	// results
 	out      []string
 	panicked string
@@ -240,15 +241,12 @@ func cmdCheck(argv []string) int {
 			if sum.Solver.Errors > 0 {
 				inconclusive = append(inconclusive, fmt.Sprintf("%s: %d solver error lines", spec.Name, sum.Solver.Errors))
 			}
-			// one representative per violation group
-			seen := map[string]bool{}
+			// per violation group the kept counterexamples (at most keepPerGroup) are candidates: the first one
+			// that reproduces natively represents the group; a group none of whose candidates reproduces is a mismatch
+			// (schedule replay through gates is timing-based, so a single candidate may fail to reproduce)
 			for _, v := range sum.Violations {
-				key := v.Kind + "|" + v.Label + "|" + spec.classify(v)
-				if seen[key] {
-					continue
-				}
-				seen[key] = true
-				cases = append(cases, &replayCase{name: fmt.Sprintf("%s-v%d", spec.Name, len(cases)), spec: spec, nondets: v.Nondets, viol: v})
+				key := spec.Name + "|" + v.Kind + "|" + v.Label + "|" + spec.classify(v)
+				cases = append(cases, &replayCase{name: fmt.Sprintf("%s-v%d", spec.Name, len(cases)), spec: spec, nondets: v.Nondets, viol: v, group: key})
 			}
 			for _, w := range sum.Witnesses {
 				cases = append(cases, &replayCase{name: fmt.Sprintf("%s-w%d", spec.Name, len(cases)), spec: spec, nondets: w.Nondets, witness: w})
@@ -259,6 +257,9 @@ func cmdCheck(argv []string) int {
 				inconclusive = append(inconclusive, "native replay failed: "+err.Error())
 			}
 		}
+		groupDone := map[string]bool{}
+		groupFail := map[string]string{}
+		var groupOrder []string
 		for _, c := range cases {
 			if c.witness != nil {
 				if !c.ran {
@@ -280,7 +281,14 @@ func cmdCheck(argv []string) int {
 				continue
 			}
 			v := c.viol
-			totalViolations++
+			if groupDone[c.group] {
+				continue
+			}
+			if _, seenGroup := groupFail[c.group]; !seenGroup {
+				totalViolations++
+				groupOrder = append(groupOrder, c.group)
+				groupFail[c.group] = ""
+			}
 			reproduced := false
 			if c.ran {
 				switch v.Kind {
@@ -309,9 +317,12 @@ func cmdCheck(argv []string) int {
 				}
 			}
 			if !reproduced {
-				inconclusive = append(inconclusive, fmt.Sprintf("%s: ENGINE-MISMATCH counterexample for %q did not reproduce natively (replay=%s, native output: %v %s)", c.spec.Name, v.Label, path, c.out, c.panicked))
+				if groupFail[c.group] == "" {
+					groupFail[c.group] = fmt.Sprintf("%s: ENGINE-MISMATCH counterexample for %q did not reproduce natively (replay=%s, native output: %v %s)", c.spec.Name, v.Label, path, c.out, c.panicked)
+				}
 				continue
 			}
+			groupDone[c.group] = true
 			matched := false
 			for i := range known {
 				if known[i].matches(prop, c.spec.Name, v) {
@@ -323,6 +334,11 @@ func cmdCheck(argv []string) int {
 			if !matched {
 				violLines = append(violLines, fmt.Sprintf("VIOLATION property=%s replay=%s", prop, path))
 				fmt.Printf("  counterexample harness=%s kind=%s label=%q detail=%s\n", c.spec.Name, v.Kind, v.Label, trunc(v.Detail, 400))
+			}
+		}
+		for _, g := range groupOrder {
+			if !groupDone[g] && groupFail[g] != "" {
+				inconclusive = append(inconclusive, groupFail[g])
 			}
 		}
 	}
